@@ -117,22 +117,47 @@ def cross_polytope(ctx, F):
     if not (is_call(B, 'ArrayBase::ones') and pow2(B[2][0])):
         problems.append('the right-hand side is not 1 for each of the 2^dim rows (%s)' % fmt(s(B))[:80])
     ws = [w for w in assigns(b, R)]
-    mw = [w for w in ws if is_call(w.target, 'IndexMut::index_mut') and s(w.target[2][0]) == s(M)]
-    other = [w for w in ws if w not in mw and is_call(w.target, 'IndexMut::index_mut') and s(w.target[2][0]) == s(B)]
-    if other:
-        problems.append('the right-hand side is overwritten')
-    if len(mw) != 1:
-        ctx.undecided('C14.R2', site, 'expected exactly one conditional sign write on the matrix, found %d' % len(mw), b.span)
-        return
-    w = mw[0]
-    idx = s(w.target[2][1])
-    idx = idx[2] if idx[0] == 'agg' and idx[1] == 'array' else ()
-    v = s(w.value)
-    val_ok = v in (('call', 'Neg::neg', (('call', 'One::one', ()),)), ('const', -1.0), ('un', 'Neg', ('call', 'One::one', ())), ('un', 'Neg', ('const', 1.0)))
 
     def rng(e, hi_pred):
         return is_call(e, 'Iterator::next') and e[2][0][0] == 'agg' and e[2][0][1][:2] == ('adt', 'Range') and e[2][0][2][0] == ('const', 0) and hi_pred(e[2][0][2][1])
-    idx_ok = len(idx) == 2 and rng(idx[0], pow2) and rng(idx[1], lambda h: h == DIM)
+
+    def cell(t):
+        """(i, j) of the matrix entry written, when the write sweeps every entry of M: explicit indices over 0..2^dim x 0..dim, the
+        enumerated rows and their enumerated entries, or indexed_iter_mut"""
+        t = s(t)
+        if is_call(t, 'IndexMut::index_mut') and t[2][0] == s(M):
+            idx = t[2][1]
+            idx = idx[2] if idx[0] == 'agg' and idx[1] == 'array' else ()
+            if len(idx) == 2 and rng(idx[0], pow2) and rng(idx[1], lambda h: h == DIM):
+                return idx[0], idx[1]
+            return None
+        if t[0] == 'field' and t[2] == '1' and is_call(t[1], 'Iterator::next'):
+            src = t[1][2][0]
+            if is_call(src, 'ArrayBase::indexed_iter_mut') and src[2][0] == s(M):
+                pos = ('field', t[1], '0')
+                return ('field', pos, '0'), ('field', pos, '1')
+            if is_call(src, 'Iterator::enumerate', 'enumerate'):
+                inner = src[2][0]
+                while is_call(inner, 'ArrayBase::iter_mut', 'IntoIterator::into_iter') and inner[2]:
+                    inner = inner[2][0]
+                if inner[0] == 'field' and inner[2] == '1' and is_call(inner[1], 'Iterator::next') and is_call(inner[1][2][0], 'Iterator::enumerate', 'enumerate'):
+                    rows_ = inner[1][2][0][2][0]
+                    if is_call(rows_, 'ArrayBase::outer_iter_mut', 'ArrayBase::rows_mut', 'ArrayBase::axis_iter_mut') and rows_[2][0] == s(M) and \
+                            (not is_call(rows_, 'ArrayBase::axis_iter_mut') or rows_[2][1][2] == (('const', 0),)):
+                        return ('field', inner[1], '0'), ('field', t[1], '0')
+        return None
+    mw = [w for w in ws if cell(w.target) is not None]
+    other = [w for w in ws if w not in mw and any(s(x) in (s(M), s(B)) for x in walk(w.target))]
+    if other:
+        problems.append('the system is written by something other than the sign sweep')
+    if len(mw) != 1:
+        ctx.undecided('C14.R2', site, 'expected exactly one conditional sign write sweeping the matrix, found %d' % len(mw), b.span)
+        return
+    w = mw[0]
+    ci, cj = cell(w.target)
+    v = s(w.value)
+    val_ok = v in (('call', 'Neg::neg', (('call', 'One::one', ()),)), ('const', -1.0), ('un', 'Neg', ('call', 'One::one', ())), ('un', 'Neg', ('const', 1.0)))
+    idx_ok = True
     lits = [l for l in literals(b, R, w.bb)]
     bit = []
     rest = []
@@ -145,9 +170,9 @@ def cross_polytope(ctx, F):
         if e is not None and e[0] == 'bin' and e[1] in ('Ne', 'Eq') and e[3] == ('const', 0):
             x = e[2]
             a_, b_ = (x[2] if is_call(x, 'BitAnd::bitand') else (x[2], x[3]) if x[0] == 'bin' and x[1] == 'BitAnd' else (None, None))
-            if a_ is not None and len(idx) == 2:
-                sh = lambda y, j: y[0] == 'bin' and y[1] == 'Shl' and y[2] == ('const', 1) and y[3] == j
-                if (a_ == idx[0] and sh(b_, idx[1])) or (b_ == idx[0] and sh(a_, idx[1])):
+            if a_ is not None:
+                sh = lambda y, j: (y[0] == 'bin' and y[1] == 'Shl' and y[2] == ('const', 1) and y[3] == j) or (is_call(y, 'Shl::shl') and y[2] == (('const', 1), j))
+                if (a_ == ci and sh(b_, cj)) or (b_ == ci and sh(a_, cj)):
                     bit.append(l)
                     continue
         rest.append(l)
